@@ -13,6 +13,8 @@
 
 #include <sys/socket.h>
 #include <sys/stat.h>
+#include "log.h"
+#include "util.h"
 /* struct sockaddr_un comes from <linux/un.h>, included by ctl.c */
 
 /* ------------------------------------------------------------------ strings without quantifiers */
@@ -29,6 +31,10 @@
 #define XV_NONUL96(p, n) (XV_N16(p, 0, n) && XV_N16(p, 16, n) && XV_N16(p, 32, n) && XV_N16(p, 48, n) && XV_N16(p, 64, n) && XV_N16(p, 80, n))
 /* p is the string "tls.key" (XCM_ATTR_TLS_KEY) */
 #define XV_IS_TLS_KEY(p) ((p)[0] == 't' && (p)[1] == 'l' && (p)[2] == 's' && (p)[3] == '.' && (p)[4] == 'k' && (p)[5] == 'e' && (p)[6] == 'y' && (p)[7] == 0)
+
+/* byte j of the value field of a struct ctl_proto_attr, by address: `attr.any_value[j]` names a member of an anonymous union
+ * and CBMC reads the whole 512-byte union to get at one byte (512 array reads at a symbolic offset per mention) */
+#define XV_ANYV(attr, j) (((uint8_t *)&(attr))[offsetof(struct ctl_proto_attr, any_value) + (j)])
 
 #ifndef XV_CTL_NAME_OBJ
 #define XV_CTL_NAME_OBJ 96      /* attribute names of 0..95 characters are explored (the wire field holds 63) */
@@ -62,50 +68,72 @@ struct xpoll *xv_ctl_xpoll;    /* ghost constant: the xpoll instance of the sock
 long xv_ctl_ep_ops;            /* number of xpoll_fd_reg_add/mod/del calls (each may touch the epoll set) */
 int xv_ctl_reg;                /* ghost index (never assigned): an ARBITRARY registration id */
 
-int xv_ctl_ci;                 /* ghost constant: index of the client a per-client function is called for */
-
+/* The records are grouped into one struct per stub: every assigns-clause target is one more object DFCC's havoc and
+ * inclusion checks range over (with ~45 single ghost variables process_client ran out of memory); the old names
+ * are macros for the members. */
+struct xv_ctl_rd_s { long calls; _Bool readable; };                              /* ut_is_readable: count, last answer */
+struct xv_ctl_cls_s { long calls; int fd; };                                     /* ut_close: count, last fd */
+struct xv_ctl_acc_s { int rc; long fds_made; };                                  /* ut_accept result; socket()/accept4() successes */
+struct xv_ctl_rcv_s { long calls; int fd; long rc; int err; int req_type; _Bool req_cstr, req_key; };
+struct xv_ctl_snd_s { long calls; int fd; size_t len; long rc; int err; const void *buf; uint8_t byte_j; };
+struct xv_ctl_unl_s { long calls; char unlink_p; _Bool gsn_ok; char bound_p; };
+struct xv_ctl_get_s { int rv; int err; int type; uint8_t byte_j; long calls; };
+struct xv_ctl_all_s { size_t n; int i_type; size_t i_len; uint8_t i_val_mc; char i_name_j; size_t i_namelen; size_t g_len0, g_namelen, g_len; };
+struct xv_ctl_rd_s xv_ctl_rd; struct xv_ctl_cls_s xv_ctl_cls; struct xv_ctl_acc_s xv_ctl_acc; struct xv_ctl_rcv_s xv_ctl_rcv;
+struct xv_ctl_snd_s xv_ctl_snd; struct xv_ctl_unl_s xv_ctl_unl; struct xv_ctl_get_s xv_ctl_get; struct xv_ctl_all_s xv_ctl_all;
 /* ut_is_readable */
-long xv_ctl_readable_calls; _Bool xv_ctl_readable;  /* count, last answer */
-
+#define xv_ctl_readable_calls xv_ctl_rd.calls
+#define xv_ctl_readable xv_ctl_rd.readable
 /* descriptors */
-long xv_ctl_close_calls; int xv_ctl_closed_fd;     /* ut_close: count, last fd  */
-long xv_ctl_fds_made;                              /* socket()/accept4() successes */
-
-/* recv(2) */
-long xv_ctl_recv_calls; int xv_ctl_recv_fd; long xv_ctl_recv_rc; int xv_ctl_recv_errno;
-int xv_ctl_req_type;           /* type field of the datagram received (valid when recv_rc >= 4) */
-_Bool xv_ctl_req_cstr, xv_ctl_req_key; /* full-size datagram: its attr_name[64] holds a terminated string / the string "tls.key" */
-
-/* send(2) */
-long xv_ctl_send_calls; int xv_ctl_send_fd; size_t xv_ctl_send_len; long xv_ctl_send_rc; int xv_ctl_send_errno;
-const void *xv_ctl_send_buf;
-uint8_t xv_ctl_send_j;         /* byte xv_ctl_j of the buffer handed to send() */
+#define xv_ctl_close_calls xv_ctl_cls.calls
+#define xv_ctl_closed_fd xv_ctl_cls.fd
+#define xv_ctl_accept_rc xv_ctl_acc.rc
+#define xv_ctl_fds_made xv_ctl_acc.fds_made
+/* recv(2): calls, descriptor, result (-1 | 0..len), errno if -1; of the datagram received: its type field (valid when
+ * rc >= 4) and, when it is full-size, whether its attr_name[64] holds a terminated string / the string "tls.key" */
+#define xv_ctl_recv_calls xv_ctl_rcv.calls
+#define xv_ctl_recv_fd xv_ctl_rcv.fd
+#define xv_ctl_recv_rc xv_ctl_rcv.rc
+#define xv_ctl_recv_errno xv_ctl_rcv.err
+#define xv_ctl_req_type xv_ctl_rcv.req_type
+#define xv_ctl_req_cstr xv_ctl_rcv.req_cstr
+#define xv_ctl_req_key xv_ctl_rcv.req_key
+/* send(2): calls, descriptor, length, result, errno if -1, buffer, byte xv_ctl_j of the buffer */
+#define xv_ctl_send_calls xv_ctl_snd.calls
+#define xv_ctl_send_fd xv_ctl_snd.fd
+#define xv_ctl_send_len xv_ctl_snd.len
+#define xv_ctl_send_rc xv_ctl_snd.rc
+#define xv_ctl_send_errno xv_ctl_snd.err
+#define xv_ctl_send_buf xv_ctl_snd.buf
+#define xv_ctl_send_j xv_ctl_snd.byte_j
 size_t xv_ctl_j;               /* ghost index (never assigned): an ARBITRARY byte offset */
-
-/* accept */
-int xv_ctl_accept_rc;
-
-/* unlink / getsockname */
-long xv_ctl_unlink_calls; char xv_ctl_unlink_p;    /* unlink: count, byte xv_ctl_p of the last path */
-_Bool xv_ctl_gsn_ok; char xv_ctl_bound_p;          /* getsockname succeeded; byte xv_ctl_p of the bound path */
+/* unlink: count, byte xv_ctl_p of the last path; getsockname: succeeded, byte xv_ctl_p of the bound path */
+#define xv_ctl_unlink_calls xv_ctl_unl.calls
+#define xv_ctl_unlink_p xv_ctl_unl.unlink_p
+#define xv_ctl_gsn_ok xv_ctl_unl.gsn_ok
+#define xv_ctl_bound_p xv_ctl_unl.bound_p
 size_t xv_ctl_p;               /* ghost index (never assigned): an ARBITRARY offset into sun_path */
-
-/* xcm_attr_get (contract in contracts/ctl.h) */
-int xv_ctl_get_rv; int xv_ctl_get_errno; int xv_ctl_get_type; uint8_t xv_ctl_get_j; /* rv, errno if rv < 0, type, value byte xv_ctl_j */
-long xv_ctl_get_calls;
-
-/* xcm_attr_get_all (stub below): the callbacks it makes */
+/* xcm_attr_get (contract in contracts/ctl.h): rv, errno if rv < 0, type, value byte xv_ctl_j; calls */
+#define xv_ctl_get_rv xv_ctl_get.rv
+#define xv_ctl_get_errno xv_ctl_get.err
+#define xv_ctl_get_type xv_ctl_get.type
+#define xv_ctl_get_j xv_ctl_get.byte_j
+#define xv_ctl_get_calls xv_ctl_get.calls
+/* xcm_attr_get_all (stub below) */
 long xv_ctl_all_calls;         /* calls of xcm_attr_get_all */
-size_t xv_ctl_all_n;           /* number of REPORTABLE attributes called back so far (name < 64, value <= 512, not tls.key) */
+#define xv_ctl_all_n xv_ctl_all.n              /* number of REPORTABLE attributes called back so far (name < 64, value <= 512, not tls.key) */
 size_t xv_ctl_i;               /* ghost index (never assigned): an ARBITRARY position in the sequence of reportable attributes */
-int xv_ctl_i_type; size_t xv_ctl_i_len; uint8_t xv_ctl_i_val_mc; char xv_ctl_i_name_j; /* the xv_ctl_i-th reportable attribute:
-                                  type, length, value byte at offset xv_mc (the offset the memcpy model tracks), name byte at xv_ctl_j */
-size_t xv_ctl_i_namelen;
-
-/* add_attr (contract in contracts/ctl.h): ghost constants bound to entry values */
-size_t xv_ctl_g_len0;      /* attrs_len on entry */
-size_t xv_ctl_g_namelen;   /* strlen(attr_name)  */
-size_t xv_ctl_g_len;       /* len                */
+/* the xv_ctl_i-th reportable attribute: type, length, value byte at offset xv_mc (the offset the memcpy model tracks),
+ * name length, name byte at xv_ctl_j */
+#define xv_ctl_i_type xv_ctl_all.i_type
+#define xv_ctl_i_len xv_ctl_all.i_len
+#define xv_ctl_i_val_mc xv_ctl_all.i_val_mc
+#define xv_ctl_i_name_j xv_ctl_all.i_name_j
+#define xv_ctl_i_namelen xv_ctl_all.i_namelen
+/* add_attr (contract in contracts/ctl.h): ghost constants bound to entry values: attrs_len, strlen(attr_name), len */
+#define xv_ctl_g_len0 xv_ctl_all.g_len0
+#define xv_ctl_g_namelen xv_ctl_all.g_namelen
+#define xv_ctl_g_len xv_ctl_all.g_len
 #define AA_CFM(d) ((struct ctl_proto_get_all_attr_cfm *)(d))
 #define AA_ENTRY(d) (AA_CFM(d)->attrs[xv_ctl_g_len0])
 #define AA_REPORTABLE(name, namelen, len) (!XV_IS_TLS_KEY(name) && (namelen) < XCM_ATTR_NAME_MAX && (len) <= CTL_ATTR_VALUE_MAX)
@@ -123,19 +151,10 @@ static inline void xv_ctl_ghost_havoc(void)
     __CPROVER_assume(xv_ctl_live != NULL && xv_ctl_ev != NULL);
     struct xpoll *ndp; xv_ctl_xpoll = ndp;
     xv_ctl_ep_ops = nondet_long(); xv_ctl_reg = nondet_int();
-    xv_ctl_close_calls = nondet_long(); xv_ctl_closed_fd = nondet_int(); xv_ctl_fds_made = nondet_long();
-    xv_ctl_recv_calls = nondet_long(); xv_ctl_recv_fd = nondet_int(); xv_ctl_recv_rc = nondet_long(); xv_ctl_recv_errno = nondet_int();
-    xv_ctl_req_type = nondet_int(); xv_ctl_req_cstr = nondet_bool(); xv_ctl_req_key = nondet_bool();
-    xv_ctl_ci = nondet_int(); xv_ctl_readable_calls = nondet_long(); xv_ctl_readable = nondet_bool();
-    xv_ctl_send_calls = nondet_long(); xv_ctl_send_fd = nondet_int(); xv_ctl_send_len = nondet_size_t(); xv_ctl_send_rc = nondet_long();
-    xv_ctl_send_errno = nondet_int(); const void *ndb; xv_ctl_send_buf = ndb; xv_ctl_send_j = nondet_uchar(); xv_ctl_j = nondet_size_t();
-    xv_ctl_accept_rc = nondet_int();
-    xv_ctl_unlink_calls = nondet_long(); xv_ctl_unlink_p = nondet_char(); xv_ctl_gsn_ok = nondet_bool();
-    xv_ctl_bound_p = nondet_char(); xv_ctl_p = nondet_size_t();
-    xv_ctl_get_rv = nondet_int(); xv_ctl_get_errno = nondet_int(); xv_ctl_get_type = nondet_int(); xv_ctl_get_j = nondet_uchar();
-    xv_ctl_get_calls = nondet_long();
-    xv_ctl_all_calls = nondet_long(); xv_ctl_all_n = nondet_size_t(); xv_ctl_i = nondet_size_t();
-    xv_ctl_i_type = nondet_int(); xv_ctl_i_len = nondet_size_t(); xv_ctl_i_val_mc = nondet_uchar(); xv_ctl_i_namelen = nondet_size_t(); xv_ctl_i_name_j = nondet_char();
+    struct xv_ctl_rd_s n1; xv_ctl_rd = n1; struct xv_ctl_cls_s n2; xv_ctl_cls = n2; struct xv_ctl_acc_s n3; xv_ctl_acc = n3;
+    struct xv_ctl_rcv_s n4; xv_ctl_rcv = n4; struct xv_ctl_snd_s n5; xv_ctl_snd = n5; struct xv_ctl_unl_s n6; xv_ctl_unl = n6;
+    struct xv_ctl_get_s n7; xv_ctl_get = n7; struct xv_ctl_all_s n8; xv_ctl_all = n8;       /* uninitialised locals: arbitrary */
+    xv_ctl_j = nondet_size_t(); xv_ctl_p = nondet_size_t(); xv_ctl_i = nondet_size_t(); xv_ctl_all_calls = nondet_long();
 }
 #endif
 
@@ -143,6 +162,49 @@ static inline void xv_ctl_ghost_havoc(void)
 
 /* an errno value a failing system call leaves: any positive int */
 static inline int xv_ctl_any_errno(void) { int e = nondet_int(); __CPROVER_assume(e > 0); return e; }
+
+/* ------------------------------------------------------------------ what env/base.h provides for the other units
+ * This unit does NOT include env/base.h: its ut_malloc/ut_calloc/memcpy take their size as it comes, and ctl.c passes
+ * compile-time constants (sizeof(struct ctl_proto_msg) = 37 904, sizeof(struct client), sizeof(struct ctl) = 75 840), which
+ * makes CBMC type the block as that struct and bit-blast it (see XV_CTL_SIZEOF above; remove_client crashed symex).
+ * Same models here, with the opaque zero added to every size. */
+/* TRUSTED(log) logging is switched off: LOG_* argument expressions are outside the proof */
+bool log_is_enabled(enum log_type type) { return false; }
+void log_console_conf(bool enabled) { }
+/* TRUSTED(util) ut_malloc/ut_calloc never fail (XCM aborts on OOM by design); content arbitrary / zero */
+void *ut_malloc(size_t size) { void *p = malloc(size + (size_t)xv_ctl_z); __CPROVER_assume(p != NULL); return p; }
+void *ut_calloc(size_t size)
+{
+    char *p = malloc(size + (size_t)xv_ctl_z);
+    __CPROVER_assume(p != NULL);
+    __CPROVER_array_set(p, 0);
+    return p;
+}
+void ut_free(void *ptr) { free(ptr); }
+void ut_fatal(void) { abort(); }
+void ut_mem_exhausted(void) { abort(); }
+/* memcpy(3), TRUSTED(libc): the over-approximating model of env/base.h (both regions must be accessible and disjoint; the
+ * destination becomes ARBITRARY except where stated), extended: the first 16 bytes and the byte at the ghost offset
+ * xv_mc equal the source.  Real memcpy copies every byte, so every behaviour of memcpy is a behaviour of this model. */
+void *memcpy(void *dst, const void *src, size_t n)
+{
+    __CPROVER_assert(n == 0 || __CPROVER_r_ok(src, n), "memcpy source region readable");
+    __CPROVER_assert(n == 0 || __CPROVER_w_ok(dst, n), "memcpy destination region writeable");
+    __CPROVER_assert(n == 0 || !__CPROVER_same_object(dst, src) || (const char *)src + n <= (const char *)dst || (const char *)dst + n <= (const char *)src, "memcpy src/dst overlap");
+    const uint8_t *s_ = src; uint8_t *d_ = dst;
+    if (n == 0) return dst;
+    uint8_t h[16];
+#define XV_LD(i) h[i] = (i) < n ? s_[i] : 0
+    XV_LD(0); XV_LD(1); XV_LD(2); XV_LD(3); XV_LD(4); XV_LD(5); XV_LD(6); XV_LD(7);
+    XV_LD(8); XV_LD(9); XV_LD(10); XV_LD(11); XV_LD(12); XV_LD(13); XV_LD(14); XV_LD(15);
+    _Bool g = xv_mc < n; uint8_t bg = g ? s_[xv_mc] : 0;
+    __CPROVER_havoc_slice(dst, n + (size_t)xv_ctl_z);
+#define XV_ST(i) if ((i) < n) d_[i] = h[i]
+    XV_ST(0); XV_ST(1); XV_ST(2); XV_ST(3); XV_ST(4); XV_ST(5); XV_ST(6); XV_ST(7);
+    XV_ST(8); XV_ST(9); XV_ST(10); XV_ST(11); XV_ST(12); XV_ST(13); XV_ST(14); XV_ST(15);
+    if (g) d_[xv_mc] = bg;
+    return dst;
+}
 
 /* ------------------------------------------------------------------ strcpy(3), TRUSTED(libc)
  * CBMC's own model is a byte loop; unwound, its 64+ single-byte writes at a symbolic offset of the 38 KB reply made
@@ -396,15 +458,14 @@ void ctl_derive_path(const char *ctl_dir, pid_t creator_pid, int64_t sock_ref, c
  * attributes, xv_ctl_i_* records the xv_ctl_i-th of them.
  * The invariant speaks about the reply under construction, so this stub is specific to the one call in ctl.c
  * (cb == add_attr, cb_data == the get_all_attr_cfm being filled, attrs_len == 0 on entry -- asserted). */
-#define XV_CTL_ALL_GHOSTS xv_errno, xv_ctl_all_calls, xv_ctl_all_n, xv_ctl_i_type, xv_ctl_i_len, xv_ctl_i_val_mc, xv_ctl_i_name_j, xv_ctl_i_namelen, \
-                          xv_ctl_g_len0, xv_ctl_g_namelen, xv_ctl_g_len
+#define XV_CTL_ALL_GHOSTS xv_errno, xv_ctl_all_calls, xv_ctl_all
 /* what is stated about the xv_ctl_i-th entry of the reply.  Stating everything at once costs 3.5 min of solver time
  * (each fact is a read at a symbolic offset of the 38 KB reply, and the array theory's cost grows with reads x updates),
  * so job ctl.process_get_all_attr runs as three variants, each tracking one aspect (-DXV_CTL_TRACK=1|2|3); without
  * the macro all three are tracked. */
 #define XV_CTL_ENT_SHAPE(cfm) ((int)(cfm)->attrs[xv_ctl_i].value_type == xv_ctl_i_type && (cfm)->attrs[xv_ctl_i].value_len == xv_ctl_i_len && \
         xv_ctl_i_len <= CTL_ATTR_VALUE_MAX && xv_ctl_i_namelen < XCM_ATTR_NAME_MAX)
-#define XV_CTL_ENT_VALUE(cfm) (xv_ctl_i_len <= CTL_ATTR_VALUE_MAX && (xv_mc < xv_ctl_i_len ==> (cfm)->attrs[xv_ctl_i].any_value[xv_mc] == xv_ctl_i_val_mc))
+#define XV_CTL_ENT_VALUE(cfm) (xv_ctl_i_len <= CTL_ATTR_VALUE_MAX && (xv_mc < xv_ctl_i_len ==> XV_ANYV((cfm)->attrs[xv_ctl_i], xv_mc) == xv_ctl_i_val_mc))
 #define XV_CTL_ENT_NAME(cfm) (xv_ctl_i_namelen < XCM_ATTR_NAME_MAX && (cfm)->attrs[xv_ctl_i].name[xv_ctl_i_namelen] == 0 && \
         (xv_ctl_j <= xv_ctl_i_namelen ==> (cfm)->attrs[xv_ctl_i].name[xv_ctl_j] == xv_ctl_i_name_j))
 #if !defined(XV_CTL_TRACK)
@@ -432,8 +493,7 @@ void xcm_attr_get_all(struct xcm_socket *s, xcm_attr_cb cb, void *cb_data)
     uint8_t *value = malloc(XV_CTL_LEN_MAX + (size_t)xv_ctl_z);
     __CPROVER_assume(name != NULL && value != NULL);
     while (nondet_bool())
-    __CPROVER_assigns(xv_ctl_all_n, xv_ctl_i_type, xv_ctl_i_len, xv_ctl_i_val_mc, xv_ctl_i_name_j, xv_ctl_i_namelen, xv_ctl_g_len0, xv_ctl_g_namelen, xv_ctl_g_len, \
-                      __CPROVER_object_whole(name), __CPROVER_object_whole(value), \
+    __CPROVER_assigns(xv_ctl_all, __CPROVER_object_whole(name), __CPROVER_object_whole(value), \
                       __CPROVER_object_upto(cb_data, XV_CTL_SIZEOF(struct ctl_proto_get_all_attr_cfm)))
     __CPROVER_loop_invariant(xv_ctl_all_n < (1UL << 40) && cfm->attrs_len == (xv_ctl_all_n < CTL_PROTO_MAX_ATTRS ? xv_ctl_all_n : CTL_PROTO_MAX_ATTRS))
     __CPROVER_loop_invariant(XV_CTL_ALL_ENTRY_I(cfm))
